@@ -473,6 +473,40 @@ pub fn run(ctx: &Ctx) {
             judge(&[elems], &[Layout { indent: c[1] != 1, ..Layout::default() }], &format!("{} instances, order variant {}, shape {}", n, c[1], c[2]), loc);
         }).chunk(1));
     }
+    // G6b: the same PDU referenced several times by one frame / the same signal several times by one PDU
+    {
+        // all sequences of length 1..=4 over two targets: 2 + 4 + 8 + 16 = 30
+        let mut seqs: Vec<Vec<usize>> = vec![];
+        for len in 1..=4usize {
+            for code in 0..(1usize << len) {
+                seqs.push((0..len).map(|k| (code >> k) & 1).collect());
+            }
+        }
+        let sp = Space::new(&[seqs.len(), 2, 3, 2]);
+        let s2 = sp.clone();
+        let seqs = &seqs;
+        ctx.run_family(Family::new("c11.repeated_refs", sp.size(), "ALL sequences of length 1..=4 over two targets as the PDU instances of a FRAME (the same PDU referenced 2-4 times, adjacent or not) / as the signal instances of a PDU x document order {ascending, descending sequence numbers} x sequence numbers {0.., 10,20.., 3,2,1 reversed gaps}: every instance yields its own entry", move |i, loc| {
+            let c = s2.coords(i);
+            let q = &seqs[c[0]];
+            let n = q.len();
+            let seq_no = |k: usize| match c[2] {
+                0 => k,
+                1 => (k + 1) * 10,
+                _ => k * k + 3,
+            };
+            let order: Vec<usize> = if c[1] == 0 { (0..n).collect() } else { (0..n).rev().collect() };
+            let elems: Vec<Elem> = if c[3] == 0 {
+                let pids = ["P1", "P2"];
+                let refs: Vec<(&str, usize)> = order.iter().map(|k| (pids[q[*k]], seq_no(*k))).collect();
+                vec![Elem::Pdu(pdu("P1", Desc::Text("one".into()), &[("S_UINT8", 0)])), Elem::Pdu(pdu("P2", Desc::Absent, &[("S_SINT16", 0), ("S_BOOL", 1)])), Elem::Frame(frame("ID_1", "f", &refs, Some(manuf(Some("APP1"), Some("CTX1"), None, None))))]
+            } else {
+                let sids = ["S_UINT8", "S_STRG_UTF8"];
+                let refs: Vec<(&str, usize)> = order.iter().map(|k| (sids[q[*k]], seq_no(*k))).collect();
+                vec![Elem::Pdu(pdu("P1", Desc::Absent, &refs)), Elem::Frame(frame("ID_1", "f", &[("P1", 0), ("P1", 1)], None))]
+            };
+            judge(&[elems], &[Layout::default()], &format!("{} referencing targets {:?} (document order {:?})", if c[3] == 0 { "frame with PDU instances" } else { "PDU with signal instances" }, q, order), loc);
+        }));
+    }
     // G7: text content at its edges: leading / trailing / inner / only white space, entities and
     // multi-byte characters at the edges, in every text-bearing field of the model
     {
